@@ -411,7 +411,7 @@ class Exceptions:
                 for g in self.cg.targets(s):
                     if g in seen:
                         continue
-                    if rs in self.escapes(g) and first_catcher(handler_stack(f, s.node), rs.exc) is None or g is rs.func:
+                    if rs in self.escapes(g):
                         seen.add(g)
                         q.append((g, path + [g]))
         return None
